@@ -20,13 +20,17 @@ CFG = {
             "capacities the constructor must reject; on a fidelity disagreement about the table size m a directed search (same history under a constant hash, "
             "then fill-to-the-limit with absent-key Get/Delete; then one growth from primes just below m/2) looks for a property-level failure; random: phase-structured churn (grow, shrink, revive, put-then-delete) "
             "mirrored on a sibling table, up to 2500 (quick) / 5000 (thorough) steps. "
+            "large tables (initial capacities 2^13..2^16 / primes of that size, a few hundred keys, shrinks and growths across the 4096/8192/65536 slot boundaries, "
+            "FNV and high-bits-only hashes; compared with the extracted abstract map of Spec.v only); tables keyed by string and by []int of mixed lengths using the "
+            "library's own hash functions (keys encoded injectively into integers); a determinism probe of every exported hash.HashFuncFor... "
             "A case is non-trivial when the model side saw at least one structural event (growth, shrink, in-place rehash, tombstone "
             "revival, or a successful Delete from a table holding 2+ keys); distinct = distinct (configuration, op list).",
     "assumptions": ["float32 load-factor comparisons equal the exact rational comparisons of the model (dyadic bounds, m < 2^22); swept by the correspondence",
                     "iteration order: the harness installs the identity shuffle (hook VerifIdentityShuffle) and the model runs with the identity oracle; "
                     "theorems quantify over every permutation oracle",
                     "Go int/uint64 arithmetic does not overflow (i*i, i*h2, 2*m) for tables below 2^31 slots",
-                    "keys are ints with eqKey = (==); the model is parametric in K, V, eqKey, hash"],
+                    "keys are ints with eqKey = (==), or strings / []int encoded injectively into ints; the model is parametric in K, V, eqKey, hash",
+                    "tables with 2048+ initial slots are compared with the extracted abstract map (s_get, s_put, s_rem, s_equal of Spec.v) on property-level observables only"],
     "timeout": 900,
 }
 
